@@ -154,6 +154,11 @@ class IntervalView(Family):
                     ctx.claim("getitem[i,j]=flat[i*n+j]", ctx.same(ia[i, j], vs[f]), {"i": i, "j": j})
         for f in range(L):
             ctx.claim("getitem[int]=flat", ctx.same(ia[f], vs[f]), {"f": f})
+        # negative element index: [i, -j] is the flat element i*n - j (used by the strategies to look into the previous interval)
+        for i in range(1, rows):
+            for j in range(1, min(n, 3) + 1):
+                if i * n - j < L:
+                    ctx.claim("getitem[i,-j]=flat[i*n-j]", ctx.same(ia[i, -j], vs[i * n - j]), {"i": i, "j": -j})
         ctx.claim("len", len(ia) == L and ia.nr_of_full_intervals() == L // n)
         # 2-D layout
         t = ia.to_2d_array()
@@ -179,6 +184,11 @@ class IntervalView(Family):
         ia2[wi, wj] = w
         for f in range(L):
             ctx.claim("setitem[i,j]", ctx.same(ia2.array[f], w if f == wi * n + wj else vs[f]), {"f": f})
+        ia3 = IntervalArray(arr(ctx, vs), n)
+        ia3[L - 1] = w
+        for f in range(L):
+            ctx.claim("setitem[int]", ctx.same(ia3.array[f], w if f == L - 1 else vs[f]), {"f": f})
+        ctx.claim("read-back-after-write", ctx.And(ctx.same(ia2[wi, wj], w), ctx.same(ia3[L - 1], w)))
         # block averaging
         xs = ctx.reals("x", L)
         ax, ay = process.average(arr(ctx, xs), arr(ctx, vs), n)
